@@ -14,6 +14,7 @@ import MTVerif.Model.Filter
 import MTVerif.Model.Contain
 import MTVerif.Model.Anno
 import MTVerif.Model.Sig
+import MTVerif.Model.Render
 namespace MT
 open Sexp
 
@@ -234,6 +235,18 @@ def handle (st : DState) (req : Sexp) : Except String (DState × Sexp) :=
         | .slash => .atom "/" | .star => .atom "*"
         | .item n nm a d => .list [.atom (toString n), .str nm, (match a with | none => .atom "none" | some x => .str x), sexpOfBool d]
       .ok (st, .list [.list (toks.map st'), sexpOfBool (Sig.parseToks toks == some params), sexpOfBool (Sig.validKinds params)])
+  | .list [.atom "render", t] => do
+      .ok (st, .str (Render.printE (Render.renderE st.names (← tyOf t))))
+  | .list [.atom "imports", t] => do
+      .ok (st, .list ((Render.importsOf st.names (← tyOf t)).eraseDups.map (fun mq => .list [.str mq.1, .str mq.2])))
+  | .list (.atom "rootClash" :: own :: ts) => do
+      let ownM ← strOf own
+      let imps := ((← ts.mapM tyOf).flatMap (Render.importsOf st.names)).filter (fun mq => mq.1 != ownM)
+      .ok (st, sexpOfBool (Render.rootClash imps))
+  | .list [.atom "tdNames", hint, t] => do
+      let ns := Render.tdNames (← strOf hint) (← tyOf t)
+      .ok (st, .list [.list (ns.map (fun n => .str n)), sexpOfBool (Render.hasNameCollision ns),
+                      sexpOfBool (Render.tdFieldNeedsName st.names (← tyOf t))])
   | .list [.atom "trig", r, t] => do
       .ok (st, sexpOfBool ((← tyOf t).trig (← rwOf r)))
   | .list [.atom "normal", t] => do
